@@ -167,7 +167,7 @@ class SyncedList(SyncedCollection, MutableSequence):
                     self._data[i] = self._from_base(data[i], parent=self)
 
                 if len(self._data) > len(data):
-                    self._data = self._data[: len(data)]
+                    del self._data[len(data) :]
                 else:
                     new_data = data[len(self) :]
                     if not _validate:
